@@ -52,6 +52,29 @@ CHECKS.update({
             "Trusts h5py/pytables/astropy serialisation; histories are sampled.", "6/C12"),
 })
 
+CHECKS.update({
+    "C02": ("offline history checker over a recording numpy Generator (uniform/choice draws) + tagged libraries; "
+            "frequency test as backstop",
+            "Exploration: hundreds (quick) to thousands (thorough) of real rejection_sample calls; the checker replays "
+            "exp(ll-max)>u on the recorded uniforms and demands the returned rows, order, multiplicity and truncation; "
+            "-inf/ties/flat profiles injected at the input of the real rejection code.",
+            "Row identity through unique period tags (library in internal units); numpy's uniform/choice trusted.", "6/C02"),
+    "C03": ("recorded multivariate_normal(mean, cov, size) arguments vs the oracle's exact (a, A); emitted columns vs "
+            "recorded variates; moment test backstop; ASan/UBSan replay (thorough)",
+            "Exploration: every accepted row of hundreds of sessions is judged on the arguments handed to numpy and on "
+            "the emitted columns (bitwise), over priors with active K cap, jitter, offsets, trends, non-zero means, both paths.",
+            "numpy's multivariate_normal is trusted to sample what it is given; ill-conditioned posteriors are counted, not judged.", "6/C03"),
+    "C06": ("tag-based bookkeeping monitor on return_logprobs / return_all_logprobs outputs of both samplers",
+            "Exploration: the option product of rejection_sample and iterative_rejection_sample on libraries with "
+            "ln_prior_i = -(i+1/2) and unique period tags; every returned row must carry its own tag's values as plain floats.",
+            "Row identity via tags; acceptance itself is judged by C02/C14.", "6/C06"),
+    "C14": ("offline history checker of iterative_rejection_sample (recorded per-iteration uniforms, shuffled order, "
+            "logged evaluation requests)",
+            "Exploration: seeded sessions over library sizes, requests, batch growth, budgets, shuffling and both paths; "
+            "return type, length, membership, last-iteration acceptance, budget, no repeats, must-raise.",
+            "Library in internal units; any raise counts as a surfaced failure.", "6/C14"),
+})
+
 NOT_YET = {
 }
 
